@@ -3,7 +3,7 @@ EXTENDS Concurrency, Json
 CONSTANT WithGen      \* TRUE: the mixes that involve a node / prototype of freshly generated code (run by the generated runner)
 BaseOps == {"read-basic", "read-bind", "read-bind-repr", "deep-equal", "copy", "encode-cbor", "encode-json", "walk", "load",
            "loadraw", "build-basic", "build-bind", "wrap-explicit", "proto-inferred", "struct-lookup", "ts-clone", "ts-merge",
-           "bind-plain", "bind-converter", "focus-get", "transform", "compile-selector", "load-fs"}
+           "bind-plain", "bind-converter", "focus-get", "transform", "compile-selector", "load-fs", "infer-first"}
 GenOps == {"read-gen", "read-gen-repr", "encode-gen", "copy-gen", "build-gen"}
 AllOps == IF WithGen THEN BaseOps \cup GenOps ELSE BaseOps
 \* one line per operation mix (the initial states); with WithGen only the mixes that have a generated-code operation
